@@ -2,12 +2,15 @@ mod c01;
 mod c02;
 mod c03;
 mod c04;
+mod c05;
 mod c06;
 mod c07;
 mod c08;
 mod c09;
 mod c10;
 mod c13;
+mod c16;
+mod c17;
 mod eng;
 mod gen;
 mod mdoc;
@@ -66,12 +69,15 @@ fn main() {
         "C02" => c02::run(tier),
         "C03" => c03::run(tier),
         "C04" => c04::run(tier),
+        "C05" => c05::run(tier),
         "C06" => c06::run(tier),
         "C07" => c07::run(tier),
         "C08" => c08::run(tier),
         "C09" => c09::run(tier),
         "C10" => c10::run(tier),
         "C13" => c13::run(tier),
+        "C16" => c16::run(tier),
+        "C17" => c17::run(tier),
         x => {
             eprintln!("unknown check {}", x);
             2
